@@ -13,7 +13,8 @@ SEED_CHECKS = {'C01-a': ['C01', 'C12'], 'C12-a': ['C12'], 'C13-a': ['C13'], 'C05
                'C03-a': ['C03'], 'C08-a': ['C08'], 'C04-a': ['C04'], 'C07-a': ['C07'], 'C17-a': ['C17'], 'C02-a': ['C02', 'C10'], 'C09-a': ['C09'],
                'C10-a': ['C10', 'C02'], 'C11-a': ['C11'],
                'C01-b': ['C01', 'C05', 'C10'], 'C02-b': ['C02'], 'C03-b': ['C03'], 'C04-b': ['C04'], 'C05-b': ['C05'], 'C06-b': ['C06', 'C07'],
-               'C07-b': ['C07'], 'C08-b': ['C08', 'C03']}
+               'C07-b': ['C07'], 'C08-b': ['C08', 'C03', 'C18'], 'C09-b': ['C09', 'C08'], 'C10-b': ['C10'], 'C11-b': ['C11'], 'C12-b': ['C12'],
+               'C13-b': ['C13'], 'C15-b': ['C15'], 'C17-b': ['C17'], 'C18-b': ['C18']}
 
 
 def run(pid):
